@@ -42,10 +42,12 @@ def run(rep, tier):
         c = facts.facts(cfg).crate("pest")
         sfx = "" if cfg == "default" else "@" + cfg
         sorted_rule(rep, c, sfx)
-        writers(rep, c, sfx)
-        tracksites(rep, c, sfx)
-        args(rep, c, sfx)
+        track = writers(rep, c, sfx)   # the recording function is located by role, not by name
+        if track:
+            tracksites(rep, c, sfx, track)
+            args(rep, c, sfx, track)
         polarity(rep, c, sfx)
+    backends(rep)
 
 
 def vec_field_of(n):
@@ -152,18 +154,18 @@ def cond_variant_test(cond, field, enum):
     return None
 
 
-def tracksites(rep, c, sfx):
+def tracksites(rep, c, sfx, trackpath):
     r = rep.rule("C08.TRACKSITES" + sfx, 6,
                  "rule(): Ok arm tracks only under lookahead == Negative, Err arm only under lookahead != Negative; "
                  "track returns at once in atomic mode, records into neg_attempts iff lookahead == Negative, and "
                  "moves attempt_pos only forward")
     rule = c.fn(PS + "::rule")
-    track = c.fn(PS + "::track")
+    track = c.fn(trackpath)
     if rule is None or track is None:
         r.lost("ParserState::rule / track")
         return
     ctx = hirq.Ctx(rule)
-    sites = [n for n in walk(rule["body"]) if kind(n) == "MethodCall" and n.get("path") == PS + "::track"]
+    sites = [n for n in walk(rule["body"]) if kind(n) == "MethodCall" and n.get("path") == trackpath]
     seen_arms = set()
     for n in sites:
         gs = ctx.guards(n)
@@ -275,12 +277,12 @@ def highwater(r, fn, field, label):
         r.violation("%s:highwater-assign" % label, where(fn["body"]), "no assignment to %s found" % field)
 
 
-def args(rep, c, sfx):
+def args(rep, c, sfx, trackpath):
     r = rep.rule("C08.ARGS" + sfx, 4,
                  "index-kind: the local saved from pos_attempts.len() is passed to the parameter of track that "
                  "truncates pos_attempts, and likewise for neg_attempts, at both call sites")
     rule = c.fn(PS + "::rule")
-    track = c.fn(PS + "::track")
+    track = c.fn(trackpath)
     if rule is None or track is None:
         r.lost("ParserState::rule / track")
         return
@@ -322,7 +324,7 @@ def args(rep, c, sfx):
                 e = peel(init)
                 if kind(e) == "MethodCall" and e["m"] == "len" and vec_field_of(e["recv"]):
                     saved[pat["id"]] = vec_field_of(e["recv"])
-    sites = [n for n in walk(rule["body"]) if kind(n) == "MethodCall" and n.get("path") == PS + "::track"]
+    sites = [n for n in walk(rule["body"]) if kind(n) == "MethodCall" and n.get("path") == trackpath]
     ctx = hirq.Ctx(rule)
     for n in sites:
         arm = "?"
@@ -415,3 +417,25 @@ def polarity(rep, c, sfx):
                         "`!(.. &e ..)` are reported with the wrong polarity (dropped from `unexpected`, or added to "
                         "`expected` at a position where nothing reportable failed)"
                         % ("a positive" if pos else "a negative", init, got, w))
+
+
+def backends(rep):
+    """Both back-ends wrap every kind of rule (ordinary and WHITESPACE/COMMENT) in the same rule()/atomic()
+    nesting, hence make the same rules reportable (shared with C02.RULE)."""
+    from . import c02
+    from .. import synx
+    f = facts.facts("default")
+    gen, vm, meta = f.crate("pest_generator"), f.crate("pest_vm"), f.crate("pest_meta")
+    if gen is None or vm is None or meta is None:
+        r = rep.rule("C08.BACKENDS", 0, "back-end crates present")
+        r.lost("generator / vm facts")
+        return
+    macros = synx.extract([c02.GENFILE, "generator/src/macros.rs"])
+    ctx = c02.Ctx(gen, vm, meta, macros, "default")
+    before = len(rep.rules)
+    c02.rule_rule(rep, ctx, "")
+    for rr in rep.rules[before:]:
+        rr.name = "C08.BACKENDS"
+        rr.desc = ("which rules are reportable is decided by the rule()/atomic() nesting around a rule body; the "
+                   "nesting per modifier (ordinary and WHITESPACE/COMMENT rules) is identical in generated code "
+                   "and in the VM")
